@@ -161,8 +161,11 @@ def check_call(x, x0, n, container, W, S):
     # the same request with numpy scalars for x0 and n (what `for n in np.arange(m)` or `n = orders[k]` hand over)
     with warnings.catch_warnings(), np.errstate(all='ignore'):
         warnings.simplefilter('ignore')
-        for name, fn, nn, ref in (('fd_weights_all', fd_weights_all, np.int32(n), w),
-                                  ('fd_weights', fd_weights, np.int64(n), w1)):
+        forms = [('fd_weights_all', fd_weights_all, np.int32(n), w), ('fd_weights', fd_weights, np.int64(n), w1)]
+        if n in (0, 1):
+            # a Python bool is an integer (n = want_slope): False is n = 0, True is n = 1
+            forms += [('fd_weights_all', fd_weights_all, bool(n), w), ('fd_weights', fd_weights, bool(n), w1)]
+        for name, fn, nn, ref in forms:
             if ref is None:
                 continue
             try:
